@@ -81,6 +81,7 @@ def run(ctx):
     rng = ctx.rng
     formatter_part(ctx)
     decoder_part(ctx)
+    pool_part(ctx)
     tools = []
     sub = os.path.join(ctx.tmp, "sub.txt")
     open(sub, "wb").write(b"a\n\xff\n")
@@ -178,6 +179,64 @@ def run(ctx):
                 summary=f"{tool} on file set '{label}': ended with {kind} instead of success or a diagnosed error")
 
 
+def pool_part(ctx):
+    """util::Pool (cache's answers, the strings of MutableVocab / substitute / idf) against PV.Pool: op sequences of Allocate and Continue
+    with sizes at the edges of the current page (exactly the space left, one more, the size of the next page, zero); the harness fills
+    every allocation with its own pattern and checks them all at the end, ASan watches every write and Continue's memcpy.  The model side
+    carries the theorems pool_allocations_in_page / _disjoint / pool_continue_copies_in_bounds / pool_shift_count_small (Props/C20)."""
+    rng = ctx.rng
+    seqs = [["a5", "a0", "c3", "c-2", "a100", "c40", "a1"], ["a0", "a0"], [], ["a31", "a1", "a1"], ["a32", "a64", "a128", "a1"], ["a33", "a1"],
+            ["a1", "c31", "c1", "c-33", "a32"], ["a10", "a10", "c12", "c1"], ["a10", "a10", "c13"], ["a7", "c-7", "a0", "a32", "a0", "c1"],
+            ["a1000000", "a1", "c5000000", "a3"], ["a16"] * 40, ["a1"] * 300, ["a24", "c8", "c8", "c8", "c8", "c8", "c8", "c8", "c8", "c8"]]
+    for it in range(150 if ctx.tier == "quick" else 3000):
+        pages, cur, last = [], 0, None            # a shadow of the page list only to AIM the sizes at the edges; no verdict depends on it
+        ops = []
+        for j in range(rng.randrange(1, 40)):
+            end = pages[-1] if pages else 0
+            left = end - cur
+            nxt = 32 << len(pages)
+            if nxt > (1 << 20):            # keep the memory that is actually touched small; pool.pages (C04) opens the large pages
+                nxt = 9
+            if last is not None and pages and rng.random() < 0.35:
+                d = rng.choice([1, left, left + 1, -last, -1 if last else 0, rng.randrange(-last, 50) if last else 3, nxt, nxt - last if nxt > last else 1])
+                if last + d < 0:
+                    d = -last
+                ops.append(f"c{d}")
+                if cur + d > end:
+                    pages.append(max(32 << len(pages), last + d)); cur = last + d
+                else:
+                    cur += d
+                last += d
+            else:
+                n = rng.choice([0, 1, left, left + 1, max(left - 1, 0), nxt, nxt + 1, nxt - 1, rng.randrange(0, 70), rng.randrange(0, 5000)])
+                ops.append(f"a{n}")
+                if cur + n > end:
+                    pages.append(max(32 << len(pages), n)); cur = n
+                else:
+                    cur += n
+                last = n
+        seqs.append(ops)
+    lines = ["pool.run " + " ".join(o) for o in seqs]
+    lines = list(dict.fromkeys(lines))
+    a = pvlib.run_lines(ctx.impl(), lines, env=pvlib.san_env(), timeout=300)
+    b = pvlib.run_lines(pvlib.PVDRIVER, lines)
+    ctx.count("pool.run", len(lines), lines)
+    ctx.cov["pool_ops"] = sum(len(l.split()) - 1 for l in lines)
+    ctx.cov["pool_moving_continues"] = sum(x.count("m ") for x in b)
+    ctx.cov["pool_max_pages"] = max((x.split("pages=")[1].count(",") + 1 for x in b if "pages=" in x and "pages=-" not in x), default=0)
+    for o, x, y in zip(lines, a, b):
+        if x == y and x.startswith("ok ") and x.endswith(" intact"):
+            continue
+        if x.startswith("ok ") and x.endswith(" intact") and y.startswith("ok "):
+            # both ran to the end and differ only in WHERE things were put: the allocator was rewritten; the theorems are about another policy
+            pvlib.report_violation(ctx, "corr:pool:" + o[:60], {"ops": [o], "impl": x[:600], "model": y[:600], "correspondence": "PV.Pool vs util::Pool (addresses, page sizes)"},
+                                   no_input=True, summary=f"util::Pool places allocations differently from PV.Pool on `{o[:80]}`: impl {x[:100]} model {y[:100]}")
+        else:
+            pvlib.report_violation(ctx, "pool:" + o[:60], {"ops": [o], "impl": x[:600], "model": y[:600]},
+                                   summary=f"util::Pool on `{o[:100]}`: {x[-160:]} (model: {y[:80]})")
+        return
+
+
 def formatter_part(ctx):
     impl = os.path.join(ctx.bdir, "harness", "implfmt")
     if not os.path.exists(impl):
@@ -243,7 +302,7 @@ def formatter_part(ctx):
 
 def replay(ctx, rp):
     if "ops" in rp:
-        impl = os.path.join(ctx.bdir, "harness", "implfmt")
+        impl = os.path.join(ctx.bdir, "harness", "implfmt") if rp["ops"][0].startswith("fmt.") else ctx.impl()
         for o, x in zip(rp["ops"], pvlib.run_lines(impl, rp["ops"], env=pvlib.san_env())):
             print(o, "->", x)
     if "files_hex" in rp:
